@@ -7,6 +7,9 @@
 //!   i n <scripthash> <txhash> <ix>         input, native script witness
 //!   i p <scripthash> <txhash> <ix> <rid>   input, Plutus witness whose redeemer data is the integer <rid>
 //!   c k|n|p …                              the same on the collateral TxInputsBuilder
+//!   i|c u <r|n|p> <ak> <scripthash> <txhash> <ix> <rid>   add_regular_utxo / add_native_script_utxo / add_plutus_script_utxo with a UTxO whose
+//!                                          address has kind ak: bk bs (base, key/script payment) ek es (enterprise) pk ps (pointer) rw (reward)
+//!                                          by (Byron) mf (malformed); the witness carries <scripthash>; the call may be refused (flag 0)
 //!   m <policy> n <ref> <asset> <amount> <set>        MintBuilder::add_asset (set = 1: set_asset), native witness; ref = reference-input
 //!                                            source; asset = number naming the asset; amount = signed quantity (0 is refused)
 //!   m <policy> p <ref> <rid> <asset> <amount> <set>  the same with a Plutus witness
@@ -63,6 +66,8 @@ enum Op {
     Prop { wk: Wk, kind: u32, policy: Option<Vec<u8>>, id: u64 },
     /// an observer call (no effect on the result expected): see `observe`
     Query(u8),
+    /// one of the *_utxo entry points (entry r|n|p) with a UTxO at an address of the given kind
+    InU { col: bool, entry: char, ak: String, sh: H, tx: Vec<u8>, ix: u32, rid: u64 },
 }
 
 fn b01(b: bool) -> &'static str { if b { "1" } else { "0" } }
@@ -88,6 +93,7 @@ impl Op {
             Op::Wd { wk, net, script, hash, coin } => { let (k, r) = wk_show(wk); format!("w {} {} {} {} {}{}", k, net, b01(*script), hash.show(), coin, r) }
             Op::Vote { wk, vk, script, hash } => { let (k, r) = wk_show(wk); format!("v {} {} {} {}{}", k, vk, b01(*script), hash.show(), r) }
             Op::Query(k) => format!("q {}", k),
+            Op::InU { col, entry, ak, sh, tx, ix, rid } => format!("{} u {} {} {} {} {} {}", if *col { "c" } else { "i" }, entry, ak, sh.show(), hex_or_dash(tx), ix, rid),
             Op::Prop { wk, kind, policy, id } => {
                 let (k, r) = wk_show(wk);
                 format!("g {} {} {} {}{}", k, kind, policy.as_ref().map(|p| hex_or_dash(p)).unwrap_or("~".into()), id, r)
@@ -115,6 +121,9 @@ fn parse(toks: &[String]) -> Vec<Op> {
             c @ ("i" | "c") => {
                 let col = c == "c";
                 match p.next() {
+                    "u" => { let entry = p.next().chars().next().unwrap(); let ak = p.next().to_string(); let sh = H::parse(p.next());
+                             let tx = unhex_or_dash(p.next()); let ix = p.next().parse().unwrap(); let rid = p.next().parse().unwrap();
+                             Op::InU { col, entry, ak, sh, tx, ix, rid } }
                     "k" => { let tx = unhex_or_dash(p.next()); let ix = p.next().parse().unwrap(); Op::In { col, kind: InK::Key, tx, ix } }
                     "n" => { let h = H::parse(p.next()); let tx = unhex_or_dash(p.next()); let ix = p.next().parse().unwrap(); Op::In { col, kind: InK::Native(h), tx, ix } }
                     "p" => { let h = H::parse(p.next()); let tx = unhex_or_dash(p.next()); let ix = p.next().parse().unwrap(); let r = p.next().parse().unwrap();
@@ -367,6 +376,41 @@ fn observe(k: u8, tb: &mut TransactionBuilder, inputs: &TxInputsBuilder, collate
         let _ = c.add_change_if_needed(&change); let _ = c.build_tx(); let _ = c.build();
     }
 }
+/// an address of every kind; the script payment credential is NOT the witness's hash for odd ix (the builder does not compare them)
+fn addr_of_kind(ak: &str, sh: &H, ix: u32) -> Address {
+    let key = Credential::from_keyhash(&keyhash(ix as u64, 0x31));
+    let stake = Credential::from_keyhash(&keyhash(ix as u64, 0x32));
+    let script = if ix % 2 == 0 { Credential::from_scripthash(&scripthash_b(&sh.bytes)) } else { Credential::from_scripthash(&scripthash_b(&bytes_from(ix as u64, 0x33, 28))) };
+    let ptr = Pointer::new_pointer(&BigNum::from(1u64), &BigNum::from(2u64), &BigNum::from(3u64));
+    match ak {
+        "bk" => BaseAddress::new(0, &key, &stake).to_address(),
+        "bs" => BaseAddress::new(0, &script, &stake).to_address(),
+        "ek" => EnterpriseAddress::new(0, &key).to_address(),
+        "es" => EnterpriseAddress::new(0, &script).to_address(),
+        "pk" => PointerAddress::new(0, &key, &ptr).to_address(),
+        "ps" => PointerAddress::new(0, &script, &ptr).to_address(),
+        "rw" => RewardAddress::new(0, &if ix % 2 == 0 { script } else { key }).to_address(),
+        "by" => ByronAddress::from_base58(BYRON).unwrap().to_address(),
+        "mf" => {
+            // an output whose address bytes do not parse keeps them as a malformed address
+            let out = TransactionOutput::from_hex("8243ff000005").expect("output with unparsable address bytes");
+            assert!(out.address().is_malformed(), "expected a malformed address");
+            out.address()
+        }
+        _ => panic!("bad address kind"),
+    }
+}
+fn add_utxo(b: &mut TxInputsBuilder, entry: char, ak: &str, sh: &H, tx: &[u8], ix: u32, rid: u64, pos: usize) -> bool {
+    let input = TransactionInput::new(&TransactionHash::from_bytes(tx.to_vec()).expect("32-byte tx hash in case"), ix);
+    let value = Value::new(&BigNum::from(10_000_000_000u64));
+    let utxo = TransactionUnspentOutput::new(&input, &TransactionOutput::new(&addr_of_kind(ak, sh, ix), &value));
+    match entry {
+        'r' => b.add_regular_utxo(&utxo).is_ok(),
+        'n' => b.add_native_script_utxo(&utxo, &native_source(sh, pos)).is_ok(),
+        'p' => b.add_plutus_script_utxo(&utxo, &plutus_witness(sh, rid, pos)).is_ok(),
+        _ => panic!("bad utxo entry"),
+    }
+}
 /// the inputs through the TransactionBuilder's own (deprecated) add_* methods
 fn add_input_live(tb: &mut TransactionBuilder, kind: &InK, tx: &[u8], ix: u32, pos: usize) {
     let input = TransactionInput::new(&TransactionHash::from_bytes(tx.to_vec()).expect("32-byte tx hash in case"), ix);
@@ -424,6 +468,7 @@ fn exec(toks: &[String]) -> String {
                 if *k >= 2 { flags.push('1'); }          // calc_script_data_hash is a call of the model too (it stores a hash)
                 continue;
             }
+            Op::InU { col, entry, ak, sh, tx, ix, rid } => add_utxo(if *col { &mut collateral } else { &mut inputs }, *entry, ak, sh, tx, *ix, *rid, pos),
             Op::In { col, kind, tx, ix } if live && !*col => { add_input_live(&mut tb, kind, tx, *ix, pos); true }
             Op::In { col, kind, tx, ix } => { add_input(if *col { &mut collateral } else { &mut inputs }, kind, tx, *ix, pos); true }
             Op::Mint { policy, plutus, is_ref, asset, amount, set } => {
@@ -776,6 +821,7 @@ fn gen(dir: &str) {
                         Op::Vote { vk, script, hash, .. } => format!("{}.{}.{}", vk, script, hex::encode(&hash.bytes)),
                         Op::Prop { kind, policy, id, .. } => format!("{}.{:?}.{}", kind, policy, id),
                         Op::Query(k) => format!("q{}", k),
+                        Op::InU { tx, ix, .. } => format!("{}:{}", hex::encode(tx), ix),
                     };
                     if items.iter().all(|x| key(x) != key(&o)) { items.push(o); }
                 }
@@ -1024,6 +1070,27 @@ fn gen(dir: &str) {
         if r.chance(1, 2) { ops.push(g.funding()); } else { ops.insert(0, g.funding()); }
         ops.push(Op::In { col: false, kind: InK::Key, tx: vec![0x00; 32], ix: 0 });
         emit(&mut out, if live { "live" } else { "observe" }, &ops);
+    }
+    // 6i. the three *_utxo entry points with UTxOs at every kind of address (matching and mismatching the entry point): a refused
+    //     call must leave nothing behind, an accepted one is a key / native / Plutus registration like any other
+    const AKS: [&str; 9] = ["bk", "bs", "ek", "es", "pk", "ps", "rw", "by", "mf"];
+    for round in 0..(20 * scale) {
+        let mut g = Gen::new(&mut r);
+        let mut ops = vec![g.funding(), g.key_collateral()];
+        let n = 3 + r.below(5);
+        for k in 0..n {
+            let entry = *r.pick(&['r', 'n', 'p', 'p']);
+            // every (entry, address kind) pair is produced within a few cases; the rest at random
+            let ak = if k == 0 { AKS[(round % 9) as usize] } else { *r.pick(&AKS) };
+            let entry = if k == 0 { ['r', 'n', 'p'][((round / 9) % 3) as usize] } else { entry };
+            let sh = hash_tok(&mut r, &g.h28, entry == 'p');
+            let sh = if entry == 'r' { hp(g.h28.pick(&mut r)) } else { sh };
+            let rid = g.rid(&mut r);
+            ops.push(Op::InU { col: r.chance(1, 8), entry, ak: ak.to_string(), sh, tx: g.tx.pick(&mut r), ix: ix(&mut r), rid });
+            if r.chance(1, 3) { ops.push(g.input(&mut r, false, 50)); }
+        }
+        shuffle(&mut r, &mut ops);
+        emit(&mut out, "utxo", &ops);
     }
     // 7. no collateral although Plutus witnesses are present (build_tx refuses), and nothing Plutus at all
     for _ in 0..(6 * scale) {
